@@ -284,6 +284,8 @@ def judge(case, obs):
         r0 = r.split("!")[0]
         busy = accepted > done                      # the worker holds a metric in the gate
         inchan = max(0, accepted - done - 1)
+        if "stats" in flags:
+            bad.append(("C14", "action %d: MetricSink::stats() read through the queuing sink differs from the wrapped sink's own figures" % i))
         if "slow" in flags:
             if a[0] == "E":
                 bad.append(("C10", "action %d: emit took > 300 ms while the wrapped sink was blocked" % i))
